@@ -72,7 +72,13 @@ Record tsum := { sum_expect : vec; sum2_expect : vec }.
 Definition tsum_init (t : traj) : tsum :=
   {| sum_expect := vzeros_like (t_expect t); sum2_expect := vzeros_like (t_expect t) |}.
 
-(* reduce_expect: sum_expect[i] += weight * e ; sum2_expect[i] += weight * e**2 *)
+(* reduce_expect: sum_expect[i] = sum_expect[i] + weight * e ;
+   sum2_expect[i] = sum2_expect[i] + weight * e**2  (out of place since 427aa48;
+   before, `+=` updated the arrays in place).  The model has value semantics:
+   every tsum owns its vectors.  That is faithful for both forms because no two
+   result objects ever share a sum array: _TrajectorySum.merge builds the
+   arrays of the new object with `weight1 * e1 [+ weight2 * e2]` (new arrays)
+   on every path, and __init__ allocates with np.zeros_like. *)
 Definition tsum_reduce (s : tsum) (t : traj) (w : Qc) : tsum :=
   {| sum_expect := vadd (sum_expect s) (vscale w (t_expect t));
      sum2_expect := vadd (sum2_expect s) (vscale w (vsq (t_expect t))) |}.
